@@ -491,6 +491,246 @@ def unit_from_grad(ctx):
   ctx.prove(sess, "from_grad(grad(qfrc_constraint))==qfrc_constraint", inv == z3.Real("qc"), True, names=names, replay=roundtrip_replay, desc="_qfrc_constraint_from_grad does not invert _update_gradient_grad")
 
 
+
+# ------------------------------------------------------------------------------------------------ units: row assembly (constraint.py) -> the assumptions of the units above
+
+EFC_ROW_ARGS = ["opt_disableflags", "worldid", "timestep", "efcid", "pos_aref", "pos_imp", "invweight", "solref", "solimp", "margin", "vel", "frictionloss", "type", "id"]
+
+
+def _run_efc_row(mode, prefix, shared=None):
+  """REAL constraint._efc_row on symbolic scalar arguments, outputs = 1x1 dense arrays (worldid = efcid = 0)"""
+  from mujoco_warp._src import constraint
+
+  core.DIVMODE[0] = mode
+  f = constraint._efc_row
+  shapes = {lab: [1, 1] for lab in ("type_out", "id_out", "pos_out", "margin_out", "D_out", "vel_out", "aref_out", "frictionloss_out")}
+  args = kh.make_args(f, shapes=shapes, scalars=dict({"worldid": 0, "efcid": 0}, **(shared or {})), mode="dense", prefix=prefix)
+  replay.snapshot_initial(args)
+  it, _ = kh.run(f, args, unroll=4)
+  return args, it
+
+
+def efc_row_replay(ctx, name, args, what):
+  """replay on the REAL _efc_row through a tiny kernel: the stored D obeys D > 0 and (clamp inactive) D*invweight*(1-imp) = imp
+  with imp recomputed from MuJoCo's impedance formula"""
+
+  def _rp(model):
+    import warp as wp
+
+    from mujoco_warp._src import constraint
+    from mujoco_warp._src.types import vec5
+
+    row = constraint._efc_row
+
+    @wp.kernel
+    def c24_efc_row_runner(flags: int, x: wp.array[float], solref: wp.vec2, solimp: vec5, typ: int, idv: int, t_o: wp.array2d[int], i_o: wp.array2d[int], p_o: wp.array2d[float], m_o: wp.array2d[float], D_o: wp.array2d[float], v_o: wp.array2d[float], a_o: wp.array2d[float], f_o: wp.array2d[float]):
+      row(flags, 0, x[0], 0, x[1], x[2], x[3], solref, solimp, x[4], x[5], x[6], typ, idv, t_o, i_o, p_o, m_o, D_o, v_o, a_o, f_o)
+
+    mv = lambda v: L.mvalf(model, v)
+    A = args
+    x = [mv(A[k]) for k in ("timestep", "pos_aref", "pos_imp", "invweight", "margin", "vel", "frictionloss")]
+    si = [mv(v) for v in A["solimp"].c]
+    sr = [mv(v) for v in A["solref"].c]
+    outs = [wp.zeros((1, 1), dtype=int), wp.zeros((1, 1), dtype=int)] + [wp.zeros((1, 1), dtype=float) for _ in range(6)]
+    typ, idv = int(kh.mval(model, A["type"])), int(kh.mval(model, A["id"]))
+    wp.launch(c24_efc_row_runner, dim=1, inputs=[int(kh.mval(model, A["opt_disableflags"])) & 0xFFFF, wp.array(np.array(x, dtype=np.float32), dtype=float), wp.vec2(*sr), vec5(*si), typ % 1000, idv % 1000] + outs, device="cpu")
+    wp.synchronize()
+    D = float(outs[4].numpy()[0, 0])
+    imp = ref_impedance(x[2], si)
+    R = x[3] * (1 - imp) / imp
+    want = 1.0 / max(R, 1e-15)
+    ok = D > 0 and lib.approx(D, want, rtol=2e-3) and int(outs[0].numpy()[0, 0]) == typ % 1000 and int(outs[1].numpy()[0, 0]) == idv % 1000
+    text = f"_efc_row(invweight={x[3]}, pos_imp={x[2]}, solimp={si}): D = {D}, type/id stored {int(outs[0].numpy()[0, 0])}/{int(outs[1].numpy()[0, 0])}; MuJoCo: imp = {imp}, D = 1/max(invweight*(1-imp)/imp, MINVAL) = {want}, type/id {typ % 1000}/{idv % 1000} [{what}]"
+    return (not ok), L.write_replay(PID, ctx.unit, name, {"function": "constraint._efc_row", "result": text})
+
+  return _rp
+
+
+def ref_impedance(pos, solimp):
+  """MuJoCo's constraint impedance d(r) (mj_makeImpedance / getimpedance), floats"""
+  lo, hi = 1e-4, 0.9999
+  dmin, dmax = min(max(solimp[0], lo), hi), min(max(solimp[1], lo), hi)
+  width, mid, power = max(1e-15, solimp[2]), min(max(solimp[3], lo), hi), max(1.0, solimp[4])
+  x = abs(pos) / width
+  if x > 1.0:
+    return dmax
+  y = (1.0 / mid ** (power - 1)) * x**power if x < mid else 1.0 - (1.0 / (1 - mid) ** (power - 1)) * (1 - x) ** power
+  return min(max(dmin + y * (dmax - dmin), dmin), dmax)
+
+
+def validate_impedance(seed):
+  """ref_impedance / D against mujoco: efc_D of a frictionless contact row = 1/R, R = max(MINVAL, (1-imp)/imp * invweight)"""
+  import mujoco
+
+  rng = np.random.default_rng(seed)
+  for trial in range(6):
+    si = [rng.uniform(0.5, 0.95), rng.uniform(0.9, 0.99), rng.uniform(0.001, 0.05), rng.uniform(0.2, 0.8), rng.choice([1.0, 2.0, 3.0])]
+    z = 0.05 - rng.uniform(0.0, 0.03)
+    xml = f"""<mujoco><worldbody><geom type="plane" size="5 5 .1" condim="1"/><body pos="0 0 {z}"><freejoint/><geom size=".05" condim="1" solimp="{' '.join(str(v) for v in si)}"/></body></worldbody></mujoco>"""
+    m = mujoco.MjModel.from_xml_string(xml)
+    d = mujoco.MjData(m)
+    mujoco.mj_forward(m, d)
+    if d.nefc != 1:
+      return f"impedance validation scene has nefc {d.nefc}"
+    con = d.contact[0]
+    imp = ref_impedance(con.dist - con.includemargin, list(con.solimp))
+    iw = m.body_invweight0[1, 0] + m.body_invweight0[0, 0]
+    want = 1.0 / max(iw * (1 - imp) / imp, 1e-15)
+    if not np.isclose(d.efc_D[0], want, rtol=1e-6):
+      return f"ref impedance: efc_D {d.efc_D[0]} vs 1/(invweight*(1-imp)/imp) = {want} (imp {imp}, solimp {si})"
+  return None
+
+
+def unit_efc_row(ctx):
+  from mujoco_warp._src import constraint, types
+
+  err = validate_impedance(ctx.seed)
+  if err:
+    ctx.error("reference impedance validation against mujoco failed: " + err)
+    return
+  ctx.encode(constraint._efc_row)
+  ctx.bound(note="all scalar arguments of _efc_row symbolic (solref, solimp, timestep, invweight, pos, vel, margin); pow() uninterpreted with true facts")
+  ctx.assume("floats are exact reals", "D-law: the MJ_MINVAL clamp on R is inactive, stated on the output as efc_D * MJ_MINVAL < 1")
+  args, it = _run_efc_row("poly", "r.")
+  imp, iw = it.top_frame.env["imp"], args["invweight"]
+  D = args["D_out"].cell.d[0][0]
+  MINVAL, MINIMP, MAXIMP = [z3.RealVal(repr(float(v))) for v in (types.MJ_MINVAL, types.MJ_MINIMP, types.MJ_MAXIMP)]
+  sess = ctx.session([core.zbool(a) for a in it.assumes])
+  ctx.reach(sess, "twin:clamp-inactive", D * MINVAL < 1)
+  names = {"invweight": iw, "pos_imp": args["pos_imp"], "D": D}
+  rp = lambda nm, what: efc_row_replay(ctx, nm, args, what)
+  ctx.prove(sess, "impedance-in-[MINIMP,MAXIMP]", And(imp >= MINIMP, imp <= MAXIMP), True, names=names, replay=rp("imp", "impedance range"), desc="_efc_row: impedance leaves [mjMINIMP, mjMAXIMP]")
+  ctx.prove(sess, "efc_D>0", D > 0, True, names=names, replay=rp("Dpos", "D > 0"), desc="_efc_row writes a non-positive efc_D (every row type: the D > 0 precondition of rows/scalar, eval/elliptic)")
+  ctx.prove(sess, "D-law:D*invweight*(1-imp)==imp", D * iw * (1 - imp) == imp, D * MINVAL < 1, names=names, replay=rp("Dlaw", "D law"), desc="_efc_row: efc_D is not imp / (invweight * (1 - imp)) although the MINVAL clamp is inactive")
+  outs = {lab: args[lab].cell.d[0][0] for lab in ("type_out", "id_out", "frictionloss_out")}
+  ctx.prove(sess, "stores-type-id-frictionloss", And(outs["type_out"] == args["type"], outs["id_out"] == args["id"], outs["frictionloss_out"] == args["frictionloss"]), True, names=names, replay=rp("store", "type/id"), desc="_efc_row does not store its type / id / frictionloss arguments in the row")
+  # efc_D and the impedance are functions of (invweight, pos_imp, solimp) only: two calls sharing exactly those arguments
+  core.DIVMODE[0] = "native"
+  sh = {"pos_imp": z3.Real("s.pos_imp"), "solimp": core.Vec([z3.Real(f"s.solimp_{i}") for i in range(5)], (5,), "f")}
+  a1, it1 = _run_efc_row("native", "a.", dict(sh, invweight=z3.Real("s.invweight")))
+  a2, it2 = _run_efc_row("native", "b.", dict(sh, invweight=z3.Real("s.invweight")))
+  s2 = ctx.session([core.zbool(a) for a in it1.assumes + it2.assumes])
+  ctx.reach(s2, "twin:two-calls", a1["timestep"] != a2["timestep"])
+  ctx.prove(s2, "D-depends-only-on(invweight,pos_imp,solimp)", a1["D_out"].cell.d[0][0] == a2["D_out"].cell.d[0][0], True, names={"invweight": z3.Real("s.invweight")}, replay=efc_row_replay(ctx, "dep", a1, "dependency"), desc="_efc_row: efc_D depends on something else than invweight, pos_imp, solimp")
+  a3, it3 = _run_efc_row("native", "c.", sh)
+  s3 = ctx.session([core.zbool(a) for a in it1.assumes + it3.assumes])
+  ctx.prove(s3, "impedance-depends-only-on(pos_imp,solimp)", it1.top_frame.env["imp"] == it3.top_frame.env["imp"], True, names={"pos_imp": sh["pos_imp"]}, replay=efc_row_replay(ctx, "depimp", a1, "dependency"), desc="_efc_row: impedance depends on something else than pos_imp, solimp (rows of one contact would not share it)")
+  core.DIVMODE[0] = "poly"
+  # chain lemma (pure algebra): two rows with the same impedance I, the D-law, and the invweight scaling  =>  the cone relation
+  nr = lambda m: (False, "pure algebraic lemma (no code involved)")
+  Dj, D0, wj, w0, I, fr, mu = z3.Reals("Dj D0 wj w0 I fr mu")
+  lem = ctx.session([I > 0, I < 1, Dj * wj * (1 - I) == I, D0 * w0 * (1 - I) == I, wj * fr * fr == w0 * mu * mu, fr > 0, mu > 0], tactic="qfnra-nlsat")
+  ctx.reach(lem, "twin:lemma-scaling", D0 > 0)
+  ctx.prove(lem, "lemma/D-law+invweight-scaling=>D_j*mu^2==D_0*friction_j^2", Dj * mu * mu == D0 * fr * fr, True, names={"I": I}, replay=nr, desc="chain lemma fails")
+  lem2 = ctx.session([I > 0, I < 1, Dj * wj * (1 - I) == I, D0 * w0 * (1 - I) == I, wj == w0], tactic="qfnra-nlsat")
+  ctx.reach(lem2, "twin:lemma-equal", D0 > 0)
+  ctx.prove(lem2, "lemma/equal-invweight=>equal-D", Dj == D0, True, names={"I": I}, replay=nr, desc="chain lemma fails")
+
+
+def goal_contact_rows(spec, pre, post):
+  """whole-grid replay of _efc_contact_update[_flex]: the rows written for the contact satisfy the relation the solver units
+  assume (elliptic: D_j*mu^2 = D_0*friction_j^2; pyramidal: all rows share D), type / id as expected"""
+  e = spec["env"]
+  w, c, e0, n, ell = int(e["w"]), int(e["conid"]), int(e["e0"]), int(e["n"]), bool(e["elliptic"])
+  D = [float(post["efc_D_out"][w, e0 + k]) for k in range(n)]
+  typ = [int(post["efc_type_out"][w, e0 + k]) for k in range(n)]
+  ids = [int(post["efc_id_out"][w, e0 + k]) for k in range(n)]
+  fr = [float(x) for x in pre["friction_in"][c]]
+  imp = pre["opt_impratio_invsqrt"]
+  mu = fr[0] * float(imp[w % len(imp)])
+  want_t = L.T_FRICTIONLESS if int(e["dim"]) == 1 else (L.T_ELLIPTIC if ell else L.T_PYRAMIDAL)
+  ok = all(t == want_t for t in typ) and all(i == c for i in ids)
+  clamp = any(d * 1e-15 >= 0.999 for d in D)
+  rel = []
+  if not clamp:
+    for k in range(1, n):
+      lhs, rhs = (D[k] * mu * mu, D[0] * fr[k - 1] * fr[k - 1]) if ell else (D[k], D[0])
+      rel.append((lhs, rhs))
+      ok = ok and lib.approx(lhs, rhs, rtol=2e-3)
+  return ok, f"contact {c} rows ({w},{e0}..{e0 + n - 1}): efc_D {D} type {typ} id {ids}; friction {fr[: max(1, int(e['dim']) - 1)]} mu {mu}; " + ("D_j*mu^2 vs D_0*friction_j^2" if ell else "D_j vs D_0") + f" = {rel}; expected type {want_t}, id {c}" + ("; MINVAL clamp active (relation not claimed)" if clamp else "")
+
+
+def unit_assemble(elliptic, dim, flex, layout, adhesion=True):
+  cname = "elliptic" if elliptic else "pyramidal"
+
+  def run(ctx):
+    from mujoco_warp._src import constraint
+
+    U = L.ContactUpdate(elliptic, dim, adhesion, flex, layout)
+    ctx.encode(U.k, constraint._efc_row)
+    ctx.bound(cone=cname, condim=dim, flex_kernel=flex, flg_adhesion=adhesion, layout=U.text)
+    ctx.assume(
+      "concrete bookkeeping: the contact is listed (conid < nacon), has the CONSTRAINT type bit, efc_address[c, k] = e0+k >= 0 (C39 rows/*: what _efc_contact_init writes without njmax overflow), geom ids >= 0 (rigid geoms; the flex-body weight paths of the flex kernel are outside)",
+      "friction[0..condim-2] > 0 and impratio^-1/2 > 0 (friction components are NOT assumed equal); every other float input (dist, margin, solref, solreffriction, solimp, body_invweight0, timestep, Jqvel, adhesion) symbolic",
+      "floats are exact reals; divisions as q*den = num",
+    )
+    pre = U.bg + [U.imp > 0] + [f > 0 for f in U.fr]
+    sess = ctx.session(pre, tactic="qfnra-nlsat")
+    ctx.reach(ctx.session(pre), "twin:contact-rows", True)
+    want_t = L.T_FRICTIONLESS if dim == 1 else (L.T_ELLIPTIC if elliptic else L.T_PYRAMIDAL)
+    names = {f"friction{i}": U.fr[i] for i in range(max(1, dim - 1))} | {"impratio_invsqrt": U.imp}
+    rp = lambda nm: contact_update_replay(ctx, nm, U)
+    if U.calls[0] is None:
+      ctx.prove(sess, "row0/one-_efc_row-call", False, True, names=names, replay=rp("row0-call"), desc=f"{U.builder}: row 0 is not assembled by exactly one _efc_row call")
+      return
+    A0 = dict(zip(EFC_ROW_ARGS, U.calls[0][1]))
+    for k in range(U.n):
+      if U.calls[k] is None:
+        ctx.prove(sess, f"row{k}/one-_efc_row-call", False, True, names=names, replay=rp(f"row{k}-call"), desc=f"{U.builder}: row {k} is not assembled by exactly one _efc_row call")
+        continue
+      g, a = U.calls[k]
+      A = dict(zip(EFC_ROW_ARGS, a))
+      P = lambda nm, goal, desc: ctx.prove(sess, f"row{k}/{nm}", goal, True, names=names, replay=rp(f"row{k}-{nm}"), desc=f"{U.builder} ({cname}, condim {dim}) row {k}: {desc}")
+      P("assembled", g, "a listed CONSTRAINT contact row with efc_address >= 0 is not assembled")
+      P("world-row-id-type", And(cmp("==", A["worldid"], U.w), cmp("==", A["efcid"], U.e0 + k), cmp("==", A["id"], U.c), cmp("==", A["type"], want_t)), "written to the wrong world / row, or wrong efc.id / efc.type (the layout _update_constraint_efc and contact_force rely on)")
+      P("same-impedance-inputs", And(cmp("==", A["pos_imp"], U.pos), *[cmp("==", A["solimp"].c[i], U.solimp[i]) for i in range(5)]), "impedance inputs (dist - margin, solimp) differ from the contact's: rows of one contact would not share their impedance")
+      if k >= 1 and elliptic:
+        P("invweight*friction_j^2==invweight_0*mu^2", A["invweight"] * U.fr[k - 1] * U.fr[k - 1] == A0["invweight"] * U.mu * U.mu, f"friction-row regularisation: invweight_{k} * friction[{k - 1}]^2 != invweight_0 * (friction[0]*impratio^-1/2)^2, so D_{k}*mu^2 != D_0*friction_{k - 1}^2 (elliptic cost not MuJoCo's; bottom-zone forces can leave the cone)")
+      if k >= 1 and not elliptic:
+        P("invweight==invweight_0", cmp("==", A["invweight"], A0["invweight"]), "pyramid edge rows of one contact do not share their regularisation")
+      P("stores-row", And(cmp("==", U.typ[k], want_t), cmp("==", U.ids[k], U.c)), "stored efc.type / efc.id wrong")
+    ctx.notes.append("with efcrow (D-law, impedance a function of (pos_imp, solimp)) and its chain lemma: elliptic rows satisfy D_j*mu^2 = D_0*friction_j^2 when the MINVAL clamp is inactive; pyramidal rows share D")
+
+  return (f"assemble/{cname}/condim{dim}/{'flex-kernel/' if flex else ''}{layout}", run)
+
+
+def contact_update_replay(ctx, name, U):
+  def _rp(model):
+    import warp as wp
+
+    conc = replay.concretize_args(model, U.k, U.args)
+    specs = kh.arg_specs(U.k)
+    k = replay.locate(U.locator)
+    rng = np.random.default_rng(4242)
+    env = {"w": U.w, "conid": U.c, "e0": U.e0, "n": U.n, "elliptic": U.elliptic, "dim": U.dim}
+    for trial in range(4):
+      vals, arrays = replay.build_arrays(conc, specs)
+      if trial:  # keep the integers, re-draw the floats inside the preconditions (generic anisotropic friction)
+        for label, arr in arrays.items():
+          a = arr.numpy()
+          if a.dtype.kind == "f" and a.size and not label.endswith("_out"):
+            r = rng.uniform(0.3, 2.0, size=a.shape)
+            if label == "solimp_in":
+              r = np.tile(np.array([0.9, 0.95, 0.001, 0.5, 2.0]), a.shape[:-1] + (1,)) * rng.uniform(0.9, 1.0, size=a.shape)
+            if label in ("dist_in",):
+              r = -rng.uniform(0.0001, 0.002, size=a.shape)
+            if label in ("includemargin_in", "adhesion_in"):
+              r = np.zeros(a.shape)
+            arr.assign(r.astype(a.dtype))
+      pre = {k_: v.numpy().copy() for k_, v in arrays.items()}
+      ncon, nadr = arrays["contact_efc_address_in"].shape
+      wp.launch(k, dim=(ncon, nadr), inputs=vals, device="cpu")
+      wp.synchronize()
+      post = {k_: v.numpy().copy() for k_, v in arrays.items()}
+      ok, text = goal_contact_rows({"env": env}, pre, post)
+      if not ok:
+        break
+    path = L.write_replay(ctx.pid, ctx.unit, name, {"kernel": U.locator, "launch_dim": [int(ncon), int(nadr)], "inputs": {k_: v.tolist() for k_, v in pre.items()}, "result": text + (f" (float inputs re-drawn, trial {trial})" if trial else "")})
+    return (not ok), path
+
+  return _rp
+
+
 def main(tier, seed, only=None):
   thorough = tier == "thorough"
   units = [unit_scalar(False), unit_scalar(True)]
@@ -499,6 +739,12 @@ def main(tier, seed, only=None):
   units += [unit_eval(d) for d in (3, 4, 6)]
   U = 6 if thorough else 4
   units += [unit_qfrc_dense(False, U), unit_qfrc_dense(True, U), unit_qfrc_sparse(False, U), unit_qfrc_sparse(True, U), ("qfrc/from_grad", unit_from_grad)]
+  units.append(("efcrow", unit_efc_row))
+  for d in (3, 4, 6):
+    units += [unit_assemble(True, d, False, "A"), unit_assemble(True, d, True, "A"), unit_assemble(False, d, False, "A")]
+    if thorough:
+      units += [unit_assemble(True, d, False, "B", adhesion=False), unit_assemble(False, d, True, "A"), unit_assemble(False, d, False, "B", adhesion=False)]
+  units += [unit_assemble(True, 1, False, "A"), unit_assemble(False, 1, False, "A")]
   if only:
     units = [u for u in units if any(o in u[0] for o in only)]
   return report.run_check(PID, units, tier, seed)
